@@ -39,6 +39,8 @@ def main():
             data = json.load(open(a.replay))
             return mod.replay(ctx, data)
         core.standard_ledger(ctx)
+        if a.tier == "thorough":
+            core.run_coqchk(ctx)
         mod.run(ctx)
         if a.tier == "thorough" and hasattr(mod, "thorough_extra"):
             mod.thorough_extra(ctx)
